@@ -23,9 +23,23 @@ for d in sorted(glob.glob(os.path.join(ROOT, 'seeded', '*', 'meta.json'))):
     srows.append('| `%s` | %s | %s | %s | %s |' % (m['seed_id'], m['property'], m['what'][:110].replace('|', '/'), c, ((m['check_result']['by'] or '') + (' -- ' if m['check_result']['by'] and m['check_result'].get('note') else '') + (m['check_result'].get('note') or ''))[:260].replace('|', '/')))
 seeded = ('%d seeded changes kept, %d caught (exit 1 with a named obligation): ' % (total, caught) + ', '.join('%s %d/%d' % (k, v[0], v[1]) for k, v in sorted(per.items())) + '.\n\n'
           '| seed | property | change | caught | by / why not |\n|---|---|---|---|---|\n' + '\n'.join(srows))
+# status per property (claims.json + evidence + seeds)
+claims = json.load(open(os.path.join(ROOT, 'claims.json')))
+strows = []
+for pid in sorted(claims):
+    c = claims[pid]
+    if c.get('claimed'):
+        ev = os.path.join(ROOT, 'evidence', pid + '.json')
+        ob = json.load(open(ev))['coverage']['obligations'] if os.path.exists(ev) else 0
+        serving = sorted(tomllib.load(open(q, 'rb'))['unit'] for q in glob.glob(os.path.join(ROOT, 'contracts', '*.toml')) if pid in tomllib.load(open(q, 'rb')).get('serves', []))
+        sc = per.get(pid, [0, 0])
+        strows.append('| %s | claimed (%s) | %s | %d | %d/%d | %s |' % (pid, c.get('engine', ''), ', '.join('`%s`' % s for s in serving), ob, sc[0], sc[1], c['text'][:330].replace('|', '/') + ('...' if len(c['text']) > 330 else '')))
+    else:
+        strows.append('| %s | not applicable | -- | -- | -- | %s |' % (pid, c.get('reason', '')[:330].replace('|', '/')))
+status = ('| id | state | units that serve it | obligations discharged per run (incl. dependency units) | seeded changes caught | what is decided (start of the claim text; full text in MANIFEST.json) |\n|---|---|---|---|---|---|\n' + '\n'.join(strows))
 p = os.path.join(ROOT, 'DESIGN.md')
 t = open(p).read()
-for name, text in (('UNITS', units), ('SEEDED', seeded)):
+for name, text in (('UNITS', units), ('SEEDED', seeded), ('STATUS', status)):
     a, b = '<!-- BEGIN %s -->' % name, '<!-- END %s -->' % name
     if a in t:
         t = t[:t.index(a) + len(a)] + '\n' + text + '\n' + t[t.index(b):]
